@@ -209,6 +209,12 @@ class VLoop(base_events.BaseEventLoop):
             self._time_limit = None
             self._leave()
 
+    def jump_to(self, when: float) -> None:
+        """Move the clock to `when` without running anything: whatever is made ready next (an I/O delivery) then
+        shares its iteration with the timers due at `when` - I/O callbacks first, timers after, like a selector
+        loop that wakes up at a timer's deadline with a socket readable."""
+        self._vtime = max(self._vtime, when)
+
     def advance(self, dt: float, max_iters: int = 1_000_000) -> str:
         """Let virtual time pass by dt, running everything that becomes due."""
         limit = self._vtime + dt
